@@ -45,8 +45,24 @@ SENSE = {"cc5": (5, 0x24, 0x00), "cc6": (6, 0x29, 0x00), "cc6b": (6, 0x2A, 0x01)
 ISCSI_STATUS = {"busy": 0x08, "conflict": 0x18}
 
 
+def is_cc(o):
+    return o in SENSE or o.startswith("cc:")
+
+
+def sense_of(o):
+    """-> (key, asc, ascq, descriptor format?)"""
+    if o in SENSE:
+        return SENSE[o] + (False,)
+    _, k, asc, ascq, fmt = o.split(":")
+    return int(k), int(asc), int(ascq), fmt == "d"
+
+
 def sense_bytes(kind):
-    k, asc, ascq = SENSE[kind]
+    k, asc, ascq, desc = sense_of(kind)
+    if desc:
+        s = bytearray(8)
+        s[0], s[1], s[2], s[3] = 0x72, k, asc, ascq
+        return bytes(s)
     s = bytearray(18)
     s[0], s[2], s[7], s[12], s[13] = 0x70, k, 10, asc, ascq
     return bytes(s)
@@ -99,7 +115,7 @@ def impl_main():
         if o == "good":
             f = state["fill"](len(din)) if din is not None and len(din) else b""
             return ("fill", f) if f else ("good",)
-        if o in SENSE:
+        if is_cc(o):
             return ("cc", sense_bytes(o))
         if o == "oserror":
             return ("raise", OSError(5, "EIO"))
@@ -111,7 +127,7 @@ def impl_main():
         o = state["outcomes"].pop(0) if state["outcomes"] else "good"
         if o == "good":
             return 0, None, (state["fill"](len(din)) if din is not None else None)
-        if o in SENSE:
+        if is_cc(o):
             return 2, sense_bytes(o), None
         return ISCSI_STATUS.get(o, 0x28), None, None
 
@@ -203,6 +219,13 @@ def gen_hists(seed, count):
                 b = rng.choice(names)
                 hists.append(dict(t=t, steps=[dict(m=a, outcomes=[o, "cc6b"], fill="random", seed=rng.randrange(1 << 30)),
                                               dict(m=b, outcomes=[rng.choice(["good", "cc5"]), "cc2"], fill="random", seed=rng.randrange(1 << 30))]))
+    # every sense key x characteristic ASC/ASCQ pairs x both sense formats: whatever the sense SAYS, a CHECK CONDITION is an error
+    for t in ("sg", "iscsi"):
+        for k in range(16):
+            for asc, ascq in ((0, 0), (0, 0x1D), (0x29, 0), (0x04, 0x01), (0x24, 0), (0x3F, 0x0E), (0x5D, 0), (0x0B, 0x55), (0x80, 0), (0xFF, 0xFF)):
+                for fmt in ("f", "d"):
+                    m = ("testunitready", "readcapacity10", "raw_execute", "inquiry")[(k + asc + ascq) % 4]
+                    hists.append(dict(t=t, steps=[dict(m=m, outcomes=["cc:%d:%d:%d:%s" % (k, asc, ascq, fmt), "good"], fill="zeros", seed=1)]))
     fam = ["readcapacity16", "getlbastatus", "reporttargetportgroups", "reportpriority"]
     for t in ("sg", "iscsi"):
         for a in fam:
@@ -232,14 +255,14 @@ def oracle_step(t, st, r, aspects):
         ata = st["m"] in ("atapassthrough12", "atapassthrough16")
         if o[0] == "return" and first != "good":
             # the ATA PASS-THROUGH methods ask for raw sense: over SG_IO a CHECK CONDITION then comes back attached to the command
-            if not (ata and first in SENSE and r.get("raw_sense")):
+            if not (ata and is_cc(first) and r.get("raw_sense")):
                 return "status", "%s returned normally although the target answered %s" % (st["m"], first)
         status_errors = ("BusyStatus", "ReservationConflict", "TaskSetFull", "ACAActive", "TaskAborted", "ConditionsMet", "UnspecifiedError",
                          "OSError", "CheckConditionError")
         if first == "good" and len(ex) == 1 and (o[0] == "cc" or (o[0] == "exn" and o[1] in status_errors)):
             return "status", "%s raised %s although the target reported GOOD" % (st["m"], o)
-        if first in SENSE and st["m"] not in ("atapassthrough12", "atapassthrough16"):
-            k, asc, ascq = SENSE[first]
+        if is_cc(first) and st["m"] not in ("atapassthrough12", "atapassthrough16"):
+            k, asc, ascq, _d = sense_of(first)
             if o[0] != "cc" or o[1] != asc or o[2] != ascq:
                 return "status", "%s: CHECK CONDITION %02x/%02x surfaced as %s" % (st["m"], asc, ascq, o)
         if first in ("busy", "conflict", "oserror") and o[0] != "exn":
@@ -302,7 +325,7 @@ def run_hists(hists):
 
 def run(rep, tier, seed, aspects, pid):
     """-> list of violation dicts (kind='facade-history')"""
-    count = 260 if tier == "quick" else 1500
+    count = 900 if tier == "quick" else 2500
     hists = gen_hists(seed, count)
     try:
         results = run_hists(hists)
